@@ -43,7 +43,9 @@ REF = {"X": np.array([[1, 1], [1, -1]], dtype=complex) / S2,
 PAULI = {"X": np.array([[0, 1], [1, 0]], dtype=complex),
          "Y": np.array([[0, -1j], [1j, 0]], dtype=complex),
          "Z": np.array([[1, 0], [0, -1]], dtype=complex)}
-USER_NAMES = ["H", "S", "A", "B", "Q"]
+# names of user-added unitaries: any dictionary key is a letter -- upper / lower case (lower-case twins of X, Y, Z and of
+# other user letters carry DIFFERENT matrices), digits, non-ASCII, multi-character (then the basis is a list / numpy row)
+USER_NAMES = ["H", "S", "A", "B", "Q", "x", "y", "z", "h", "s", "a", "7", "0", "\u00e9", "\u03a9", "Hd", "X2", "\u03b1\u03b2", "xx"]
 # create_dict(**kw) accepts tensors, float64 ndarrays and nested Python lists.  (The nested-list form used to be
 # rounded to single precision -- torch.tensor(list) is float32 -- repaired in /repo commit b4d870a; it is generated
 # unconditionally so that a regression is reported.)
@@ -71,10 +73,13 @@ def from_model_c(x):
     return a[..., 0] + 1j * a[..., 1]
 
 
-def stack(z):
+def stack(z, dtype="double"):
+    """explicit psi / rho as the library's [re, im] stack; the functions convert whatever dtype they are handed to double
+    (generated with exactly representable data, so the double-precision result is demanded)"""
     import torch
     z = np.asarray(z)
-    return torch.tensor(np.stack([z.real, z.imag]), dtype=torch.double)
+    t = torch.tensor(np.stack([z.real, z.imag]), dtype=torch.double)
+    return t if dtype == "double" else t.to(getattr(torch, dtype))
 
 
 def rand_unitary(rng):
@@ -107,6 +112,7 @@ def letters_for_model(basis, user):
 
 
 def nontrivial(basis):
+    basis = list(basis)
     return ("Y" in basis) and (basis != basis[::-1])
 
 
@@ -115,14 +121,17 @@ def z_overridden(spec):
     return u is not None and not np.allclose(np.array(u[0]) + 1j * np.array(u[1]), np.eye(2), rtol=0, atol=0)
 
 
-def basis_arg(spec):
-    """the basis in the form the caller passes it: str, list of letters, numpy row of letters"""
-    f = spec.get("basis_form", "str")
-    if f == "list":
-        return list(spec["basis"])
+def basis_in_form(basis, f):
+    """the basis in the form the caller passes it: str (single-character names only), list of names, numpy row of names"""
     if f == "ndarray":
-        return np.array(list(spec["basis"]))
-    return spec["basis"]
+        return np.array(list(basis))
+    if f == "str" and all(len(b) == 1 for b in basis):
+        return "".join(basis)
+    return list(basis)
+
+
+def basis_arg(spec):
+    return basis_in_form(spec["basis"], spec.get("basis_form", "str"))
 
 
 def close_c(got, want, bound):
@@ -190,7 +199,7 @@ def build(spec):
 
 
 def spec_desc(spec):
-    return {"kind": spec["kind"], "n": spec["n"], "basis": spec["basis"], "user": sorted(spec["user"].keys()),
+    return {"kind": spec["kind"], "n": spec["n"], "basis": spec["basis"], "user": sorted(spec["user"].keys()), "xdtype": spec.get("explicit_dtype"),
             "route": spec.get("route"), "form": spec.get("user_form"), "bform": spec.get("basis_form"), "tag": spec.get("tag"),
             "nstates": len(spec["states"])}
 
@@ -256,7 +265,8 @@ def check_spec(ctx, spec):
         # ------------------------------------------------------------------ wavefunctions
         if kind == "psi":
             psi_np = np.array(spec["psi"][0]) + 1j * np.array(spec["psi"][1])
-            kwp = {"psi": stack(psi_np)}
+            kwp = {"psi": stack(psi_np, spec.get("explicit_dtype", "double"))}
+            ctx.count("explicit_dtype:" + spec.get("explicit_dtype", "double"))
         else:
             ok, psi0 = ctx.call("psi(space)", case, lambda: s.psi(space))
             if not ok:
@@ -341,7 +351,8 @@ def check_spec(ctx, spec):
         # ------------------------------------------------------------------ density matrices
         if kind == "rho":
             rho_np = np.array(spec["rho"][0]) + 1j * np.array(spec["rho"][1])
-            kwr = {"rho": stack(rho_np)}
+            kwr = {"rho": stack(rho_np, spec.get("explicit_dtype", "double"))}
+            ctx.count("explicit_dtype:" + spec.get("explicit_dtype", "double"))
         else:
             ok, rho0 = ctx.call("rho(space, space)", case, lambda: s.rho(space, space))
             if not ok:
@@ -465,14 +476,39 @@ def check_default_dict(ctx):
             mu = from_model_c(mm[k])
             ctx.agree("create_dict()[%s] vs model" % name, [us[name].real, us[name].imag], [mu.real, mu.imag], case)
     # fresh states carry a default dictionary with the same properties
-    for mk, nm in ((lambda: ComplexWaveFunction(2, 2, gpu=False), "ComplexWaveFunction"), (lambda: DensityMatrix(2, 2, 2, gpu=False), "DensityMatrix")):
+    makers = ((lambda: ComplexWaveFunction(2, 2, gpu=False), "ComplexWaveFunction"), (lambda: DensityMatrix(2, 2, 2, gpu=False), "DensityMatrix"))
+    olds = []
+    for mk, nm in makers:
         ok, st = ctx.call(nm + " construction", case, mk)
         if ok:
+            olds.append(st)
             us2 = dict_facts(ctx, st.unitary_dict, case, "fresh " + nm)
             for k, name in enumerate("XYZ"):
                 if name in us2:
                     mu = from_model_c(mm[k])
                     ctx.agree("fresh %s dictionary [%s] vs model" % (nm, name), [us2[name].real, us2[name].imag], [mu.real, mu.imag], case)
+    # history: a user edits HIS dictionary (and the dictionary of HIS state) in place; every dictionary made afterwards
+    # and every state constructed afterwards must still carry the default X, Y, Z of the property
+    case3 = {"call": "create_dict", "history": "in-place edits of an earlier create_dict() result and of earlier states' dictionaries"}
+    ctx.case({"call": "create_dict", "history": "in-place edits"}, nontrivial=True)
+    try:
+        d["X"].mul_(3.0); d["Y"][0] += 1.0; d["Z"].zero_()
+        for st in olds:
+            st.unitary_dict["X"].zero_(); st.unitary_dict["Y"].neg_(); st.unitary_dict["Z"][1] += 0.5
+            st.unitary_dict["W"] = st.unitary_dict["X"]
+    except Exception:
+        ctx.count("dictionary_not_editable_in_place")
+    ok, d3 = ctx.call("create_dict() (second call)", case3, UU.create_dict)
+    if ok:
+        us3 = dict_facts(ctx, d3, case3, "create_dict() after another dictionary was edited in place")
+        for k, name in enumerate("XYZ"):
+            if name in us3:
+                mu = from_model_c(mm[k])
+                ctx.agree("second create_dict()[%s] vs model" % name, [us3[name].real, us3[name].imag], [mu.real, mu.imag], case3)
+    for mk, nm in makers:
+        ok, st = ctx.call(nm + " construction (second)", case3, mk)
+        if ok:
+            dict_facts(ctx, st.unitary_dict, case3, "fresh %s after other dictionaries were edited in place" % nm)
     # user-added matrices: present with the given values, overriding a default of the same name
     rng = ctx.rng
     a, b = rand_unitary(rng), rand_unitary(rng)
@@ -520,6 +556,277 @@ def check_size_guard(ctx):
         ctx.agree_exact("incompatible sizes: implementation raises <-> model rejects", raised is not None, len(r[0]) == 0, case)
 
 
+# ----------------------------------------------------------------------------- histories on one state object
+def mat_c(u):
+    return np.array(u[0]) + 1j * np.array(u[1])
+
+
+def mat_t(u):
+    import torch
+    return torch.tensor(np.stack([np.array(u[0], dtype=float), np.array(u[1], dtype=float)]), dtype=torch.double)
+
+
+def set_params(s, kind, p):
+    if kind == "positive":
+        gen.set_brbm(s.rbm_am, *[np.array(x) for x in p["am"]])
+    elif kind == "complex":
+        gen.set_brbm(s.rbm_am, *[np.array(x) for x in p["am"]])
+        gen.set_brbm(s.rbm_ph, *[np.array(x) for x in p["ph"]])
+    elif kind == "dm":
+        gen.set_prbm(s.rbm_am, *[np.array(x) for x in p["am"]])
+        gen.set_prbm(s.rbm_ph, *[np.array(x) for x in p["ph"]])
+
+
+def new_state(h, user, params):
+    import torch
+    from qucumber.nn_states import ComplexWaveFunction, PositiveWaveFunction, DensityMatrix
+    from qucumber.utils import unitaries as UU
+    kind, n = h["state"], h["n"]
+    d = UU.create_dict(**{k: mat_t(v) for k, v in user.items()})
+    if kind in ("complex", "psi"):
+        s = ComplexWaveFunction(n, h.get("nh", n), unitary_dict=d, gpu=False)
+    elif kind == "positive":
+        s = PositiveWaveFunction(n, h.get("nh", n), gpu=False)
+    else:
+        s = DensityMatrix(n, h.get("nh", n), h.get("na", n), unitary_dict=d, gpu=False)
+    if params is not None:
+        set_params(s, kind, params)
+    return s
+
+
+def probe(ctx, s, h, basis, cur, uarg, where, form):
+    """The four public functions against the dense product built from the dictionary that is in force NOW."""
+    import torch
+    from qucumber.utils import unitaries as UU
+    kind, n = h["state"], h["n"]
+    case = dict(h, failed_at=where)
+    missing = [b for b in basis if cur.get(b) is None]
+    if missing:
+        ctx.require("history: dictionary in force holds every letter of the basis", False, case, missing)
+        return
+    U = dense_U(basis, cur); aU = np.abs(U)
+    barg = basis_in_form(basis, form)
+    space = s.generate_hilbert_space(n)
+    states = torch.tensor(h["states"], dtype=torch.double)
+    sidx = idx_of(h["states"])
+    ctx.count("history_probe")
+    if kind in ("complex", "positive", "psi"):
+        if kind == "psi":
+            psi_np = mat_c(h["psi"]); kw = {"psi": stack(psi_np)}
+        else:
+            ok, p0 = ctx.call("history: psi(space)", case, lambda: s.psi(space))
+            if not ok:
+                return
+            psi_np, kw = cnp(p0), {}
+            if not np.all(np.isfinite(psi_np)) or np.abs(psi_np).max() > 1e150:
+                ctx.count("skipped_overflow")
+                return
+        want, bnd = U @ psi_np, aU @ np.abs(psi_np)
+        ok, out = ctx.call("history: rotate_psi", case, lambda: UU.rotate_psi(s, barg, space, unitaries=uarg, **kw))
+        if ok:
+            ctx.require("history: rotate_psi == dense product with the dictionary now in force", close_c(cnp(out), want, bnd), case,
+                        {"got": cl(cnp(out)), "want": cl(want)})
+        ok, out = ctx.call("history: rotate_psi_inner_prod", case, lambda: UU.rotate_psi_inner_prod(s, barg, states, unitaries=uarg, **kw))
+        if ok:
+            ctx.require("history: rotate_psi_inner_prod == (U psi)[idx s] with the dictionary now in force", close_c(cnp(out), want[sidx], bnd[sidx]), case,
+                        {"got": cl(cnp(out)), "want": cl(want[sidx])})
+    else:
+        if kind == "rho":
+            rho_np = mat_c(h["rho"]); kw = {"rho": stack(rho_np)}
+        else:
+            ok, r0 = ctx.call("history: rho(space, space)", case, lambda: s.rho(space, space))
+            if not ok:
+                return
+            rho_np, kw = cnp(r0), {}
+            if not np.all(np.isfinite(rho_np)) or np.abs(rho_np).max() > 1e150:
+                ctx.count("skipped_overflow")
+                return
+        want = U @ rho_np @ U.conj().T
+        bnd = aU @ np.abs(rho_np) @ aU.T
+        wd, bd = np.real(np.diag(want)), np.diag(bnd)
+        ok, out = ctx.call("history: rotate_rho", case, lambda: UU.rotate_rho(s, barg, space, unitaries=uarg, **kw))
+        if ok:
+            ctx.require("history: rotate_rho == U rho U^dagger with the dictionary now in force", close_c(cnp(out), want, bnd), case,
+                        {"maxdiff": float(np.abs(cnp(out) - want).max()) if cnp(out).shape == want.shape else None})
+        ok, out = ctx.call("history: rotate_rho_probs", case, lambda: UU.rotate_rho_probs(s, barg, states, unitaries=uarg, **kw))
+        if ok:
+            got = out.detach().cpu().numpy()
+            ctx.require("history: rotate_rho_probs == diag(U rho U^dagger)[idx s] with the dictionary now in force", close_c(got, wd[sidx], bd[sidx]), case,
+                        {"got": got.tolist(), "want": wd[sidx].tolist()})
+
+
+FORMS = ["str", "list", "ndarray"]
+
+
+def check_history(ctx, h):
+    """One state object, a sequence of operations that change which dictionary / which state is in force, the same
+    basis rotated again after each of them.  h is JSON-serialisable and is the replay record."""
+    import torch
+    from qucumber.utils import unitaries as UU
+    kind = h["state"]
+    ctx.case({"kind": "history", "state": kind, "n": h["n"], "basis": h["basis"], "ops": [st["op"] for st in h["steps"]]},
+             nontrivial=nontrivial(h["basis"]))
+    ctx.count("history:" + kind)
+    s = new_state(h, h["user"], h.get("params"))
+    defaults = {k: to_c22(v) for k, v in UU.create_dict().items()}
+    cur_state = dict(defaults); cur_state.update({k: mat_c(v) for k, v in h["user"].items()})
+    cur_arg, uarg = None, None
+    basis = list(h["basis"])
+    has_dict = kind != "positive"
+    probe(ctx, s, h, basis, cur_state, None, "start", FORMS[0])
+    for i, st in enumerate(h["steps"]):
+        op = st["op"]
+        ctx.count("history_op:" + op)
+        try:
+            if op == "set_item" and has_dict:           # s.unitary_dict[name] = U   (existing or new letter)
+                s.unitary_dict[st["name"]] = mat_t(st["u"]); cur_state[st["name"]] = mat_c(st["u"])
+            elif op == "inplace" and has_dict:          # s.unitary_dict[name].copy_(U)
+                s.unitary_dict[st["name"]].copy_(mat_t(st["u"])); cur_state[st["name"]] = mat_c(st["u"])
+            elif op == "reassign" and has_dict:         # s.unitary_dict = create_dict(**new)
+                s.unitary_dict = UU.create_dict(**{k: mat_t(v) for k, v in st["user"].items()})
+                cur_state = dict(defaults); cur_state.update({k: mat_c(v) for k, v in st["user"].items()})
+            elif op == "load" and has_dict:             # parameters and dictionary of another state, through a file
+                s2 = new_state(h, st["user"], st.get("params"))
+                path = os.path.join(ctx.scratch, "c04_hist_%d.pt" % ctx.evaluations)
+                s2.save(path); s.load(path)
+                cur_state = dict(defaults); cur_state.update({k: mat_c(v) for k, v in st["user"].items()})
+            elif op == "params":                         # the state itself changes
+                set_params(s, kind, st["params"])
+            elif op == "arg":                            # unitaries= another dictionary / back to none
+                if st.get("user") is None:
+                    uarg, cur_arg = None, None
+                else:
+                    uarg = UU.create_dict(**{k: mat_t(v) for k, v in st["user"].items()})
+                    cur_arg = dict(defaults); cur_arg.update({k: mat_c(v) for k, v in st["user"].items()})
+            elif op == "basis":                          # another basis in between, then the first one again
+                basis = list(st["basis"])
+            elif op == "again":
+                pass
+        except Exception as e:
+            ctx.require("history: operation %s on the state's dictionary raised %s" % (op, type(e).__name__), False, dict(h, failed_at=i), repr(e)[:200])
+            return
+        cur = cur_arg if cur_arg is not None else cur_state
+        probe(ctx, s, h, basis, cur, uarg, i, FORMS[(i + 1) % 3])
+    ctx.traces += 1
+
+
+def twin_user(rng, names):
+    return {nm: (lambda u: [u.real.tolist(), u.imag.tolist()])(rand_unitary_kind(rng)) for nm in names}
+
+
+def make_history(ctx, kind, n, names, basis, ops):
+    """fill the operations' data (matrices, parameters) from the PRNG"""
+    rng = ctx.rng
+    nh, na = int(rng.integers(1, 4)), int(rng.integers(1, 4))
+    h = {"kind": "history", "state": kind, "n": n, "nh": nh, "na": na, "user": twin_user(rng, names) if kind != "positive" else {},
+         "basis": list(basis), "states": rand_states(ctx, n)}
+    if kind in ("complex", "positive", "dm"):
+        h["params"] = make_params(ctx, kind, n, nh, na)
+    elif kind == "psi":
+        h["psi"] = rand_psi(ctx, n)
+    else:
+        h["rho"], h["tag"] = rand_rho(ctx, n)
+    used = [b for b in basis]
+    core = set(["X", "Y", "Z"]) | set(b for b in used)       # letters every dictionary of this history holds
+    avail_state, avail_arg = set(["X", "Y", "Z"]) | set(names), None
+    steps = []
+    for op in ops:
+        if op == "new_letter" and avail_arg is not None:
+            op = "again"
+        if op in ("set_item", "inplace"):
+            # (the letter Z is left alone here: overriding it is the separate, known-finding-tagged stream)
+            cand = [b for b in used if b != "Z"]
+            nm = str(rng.choice(cand)) if cand else "X"
+            u = rand_unitary_kind(rng)
+            steps.append({"op": op, "name": nm, "u": [u.real.tolist(), u.imag.tolist()]})
+        elif op in ("reassign", "arg"):
+            steps.append({"op": op, "user": twin_user(rng, [b for b in sorted(set(used)) if b != "Z"] or ["X"])})
+            if op == "arg":
+                avail_arg = set(core)
+            else:
+                avail_state = set(core)
+        elif op == "arg_none":
+            steps.append({"op": "arg", "user": None})
+            avail_arg = None
+        elif op == "load":
+            st = {"op": "load", "user": twin_user(rng, [b for b in sorted(set(used)) if b != "Z"] or ["X"])}
+            if kind in ("complex", "dm"):
+                st["params"] = make_params(ctx, kind, n, nh, na)
+            steps.append(st)
+            avail_state = set(core)
+        elif op == "params":
+            if kind in ("complex", "positive", "dm"):
+                steps.append({"op": "params", "params": make_params(ctx, kind, n, nh, na)})
+        elif op == "new_letter":
+            nm = str(rng.choice([x for x in USER_NAMES if x not in used]))
+            avail_state.add(nm)
+            u = rand_unitary_kind(rng)
+            steps.append({"op": "set_item", "name": nm, "u": [u.real.tolist(), u.imag.tolist()]})
+            b2 = list(basis); b2[int(rng.integers(0, len(b2)))] = nm
+            steps.append({"op": "basis", "basis": b2})
+            steps.append({"op": "basis", "basis": list(basis)})
+        elif op == "other_basis":
+            alphabet = sorted(avail_arg if avail_arg is not None else avail_state)
+            steps.append({"op": "basis", "basis": [str(b) for b in rng.choice(alphabet, size=n)]})
+            steps.append({"op": "basis", "basis": list(basis)})
+        else:
+            steps.append({"op": "again"})
+    if kind == "positive":       # no dictionary of its own: only unitaries= alternation, parameters, bases
+        steps = [st for st in steps if st["op"] in ("arg", "params", "basis", "again")]
+        for st in steps:
+            if st["op"] == "basis":
+                st["basis"] = [b if b in "XYZ" else "X" for b in st["basis"]]
+    h["steps"] = steps
+    return h
+
+
+HIST_OPS = ["set_item", "inplace", "reassign", "load", "params", "arg", "arg_none", "new_letter", "other_basis", "again"]
+
+
+def fixed_histories(ctx):
+    """always run, before anything random can exhaust a budget: every operation kind on every state kind"""
+    full = ["again", "set_item", "inplace", "reassign", "new_letter", "load", "arg", "arg", "arg_none", "params", "other_basis", "set_item"]
+    check_history(ctx, make_history(ctx, "complex", 2, [], ["X", "Z"], full))
+    check_history(ctx, make_history(ctx, "dm", 2, [], ["Y", "X"], full))
+    check_history(ctx, make_history(ctx, "psi", 2, ["x"], ["x", "X"], full))
+    check_history(ctx, make_history(ctx, "rho", 1, ["H"], ["H"], full))
+    check_history(ctx, make_history(ctx, "positive", 2, [], ["X", "Y"], ["again", "arg", "arg", "arg_none", "params", "other_basis"]))
+    check_history(ctx, make_history(ctx, "complex", 3, ["Hd", "z"], ["Hd", "Z", "z"], full))
+
+
+def random_history(ctx):
+    rng = ctx.rng
+    kind = str(rng.choice(KINDS))
+    n = int(rng.integers(1, 4))
+    names = [] if kind == "positive" else [str(x) for x in rng.choice(USER_NAMES, size=int(rng.integers(0, 3)), replace=False)]
+    alphabet = ["X", "Y", "Z"] + names
+    while True:
+        basis = [str(b) for b in rng.choice(alphabet, size=n)]
+        if any(b != "Z" for b in basis):
+            break
+    ops = [str(x) for x in rng.choice(HIST_OPS, size=int(rng.integers(3, 7)))]
+    check_history(ctx, make_history(ctx, kind, n, names, basis, ops))
+
+
+def fixed_name_and_dtype_cases(ctx):
+    """always run: lower-case twins / digits / non-ASCII / multi-character names; float32, float16, int64 explicit arrays"""
+    for kind, names, basis in (("psi", ["x", "y"], ["x", "X", "y"]), ("rho", ["z", "x"], ["z", "Z", "x"]),
+                               ("complex", ["7", "\u00e9"], ["7", "Y", "\u00e9"]), ("dm", ["Hd", "\u03b1\u03b2"], ["Hd", "\u03b1\u03b2"]),
+                               ("positive", ["h", "X2"], ["h", "X2", "X"]), ("complex", ["x"], ["x", "X"]), ("dm", ["y", "x"], ["Y", "y", "x"])):
+        n = len(basis)
+        for form in (("str", "ndarray") if all(len(b) == 1 for b in basis) else ("list", "ndarray")):
+            spec = base_spec(ctx, kind, n, {})
+            spec["user"], _ = rand_user(ctx, n, names=names)
+            spec["basis"] = list(basis)
+            spec["basis_form"] = form
+            finish(ctx, spec, n)
+    for xd in ("float32", "float16", "int64"):
+        for kind, basis in (("psi", "XY"), ("rho", "YX"), ("psi", "YZX"), ("rho", "Y")):
+            spec = base_spec(ctx, kind, len(basis), {}, xdtype=xd)
+            spec["basis"] = basis
+            finish(ctx, spec, len(basis))
+
+
 # ----------------------------------------------------------------------------- generators
 def rand_states(ctx, n, full_ok=True):
     rng = ctx.rng
@@ -532,28 +839,32 @@ def rand_states(ctx, n, full_ok=True):
     return sp[ii].tolist()
 
 
-def rand_user(ctx, basis_len, override_ok=True, override_z=False):
-    """pick 1-2 user letters (possibly overriding X or Y; Z when asked) and a basis string using them"""
+def rand_unitary_kind(rng):
+    kindu = rng.random()
+    if kindu < 0.15:
+        return np.array([[1, 1], [1, -1]], dtype=complex) / S2             # Hadamard
+    if kindu < 0.3:
+        return np.array([[1, 0], [0, 1j]], dtype=complex)                  # S-like
+    return rand_unitary(rng)
+
+
+def rand_user(ctx, basis_len, override_ok=True, override_z=False, names=None):
+    """pick 1-3 user names (possibly overriding X or Y; Z when asked) and a basis (list of names) using them"""
     rng = ctx.rng
-    k = int(rng.integers(1, 3))
-    names = list(rng.choice(USER_NAMES, size=k, replace=False))
-    if override_z:
-        names[0] = "Z"
-    elif override_ok and rng.random() < 0.3:
-        names[0] = str(rng.choice(["X", "Y"]))
+    if names is None:
+        k = int(rng.integers(1, 4))
+        names = [str(x) for x in rng.choice(USER_NAMES, size=k, replace=False)]
+        if override_z:
+            names[0] = "Z"
+        elif override_ok and rng.random() < 0.25:
+            names[0] = str(rng.choice(["X", "Y"]))
     user = {}
     for nm in names:
-        kindu = rng.random()
-        if kindu < 0.15:
-            u = np.array([[1, 1], [1, -1]], dtype=complex) / S2             # Hadamard
-        elif kindu < 0.3:
-            u = np.array([[1, 0], [0, 1j]], dtype=complex)                  # S-like
-        else:
-            u = rand_unitary(rng)
+        u = rand_unitary_kind(rng)
         user[str(nm)] = [u.real.tolist(), u.imag.tolist()]
     alphabet = sorted(set(["X", "Y", "Z"] + [str(x) for x in names]))
     while True:
-        basis = "".join(rng.choice(alphabet, size=basis_len))
+        basis = [str(b) for b in rng.choice(alphabet, size=basis_len)]
         if any(b in user for b in basis) and (not override_z or "Z" in basis):
             break
     return user, basis
@@ -569,17 +880,29 @@ def make_params(ctx, kind, n, nh, na):
     return None
 
 
-def rand_psi(ctx, n):
+def rand_psi(ctx, n, exact=None):
     rng = ctx.rng
+    if exact is not None:       # exactly representable in float16 / float32 (multiples of 1/8) or integers
+        q = 1.0 if exact == "int64" else 8.0
+        z = (rng.integers(-16, 17, size=2 ** n) + 1j * rng.integers(-16, 17, size=2 ** n)) / q
+        return [z.real.tolist(), z.imag.tolist()]
     z = rng.normal(size=2 ** n) + 1j * rng.normal(size=2 ** n)
     if rng.random() < 0.3:
         z *= np.exp(rng.uniform(-3, 3, size=2 ** n))
     return [z.real.tolist(), z.imag.tolist()]
 
 
-def rand_rho(ctx, n):
+def rand_rho(ctx, n, exact=None):
     rng = ctx.rng
     d = 2 ** n
+    if exact is not None:
+        q = 1.0 if exact == "int64" else 4.0
+        g = (rng.integers(-3, 4, size=(d, d)) + 1j * rng.integers(-3, 4, size=(d, d)))
+        if rng.random() < 0.5:
+            r, tag = (g @ g.conj().T) / q, "psd"
+        else:
+            r, tag = (g + g.conj().T) / q, "hermitian"
+        return [r.real.tolist(), r.imag.tolist()], tag
     g = rng.normal(size=(d, d)) + 1j * rng.normal(size=(d, d))
     if rng.random() < 0.5:
         r, tag = g @ g.conj().T, "psd"
@@ -588,7 +911,7 @@ def rand_rho(ctx, n):
     return [r.real.tolist(), r.imag.tolist()], tag
 
 
-def base_spec(ctx, kind, n, params_cache):
+def base_spec(ctx, kind, n, params_cache, xdtype=None):
     rng = ctx.rng
     spec = {"kind": kind, "n": n, "user": {}, "user_form": str(rng.choice(USER_FORMS)),
             "basis_form": str(rng.choice(["str", "list", "ndarray"], p=[0.6, 0.2, 0.2]))}
@@ -601,10 +924,15 @@ def base_spec(ctx, kind, n, params_cache):
             nh = int(rng.integers(1, 4)); na = int(rng.integers(1, 4))
             params_cache[key] = (nh, na, make_params(ctx, kind, n, nh, na))
         spec["nh"], spec["na"], spec["params"] = params_cache[key]
-    elif kind == "psi":
-        spec["psi"] = rand_psi(ctx, n)
     else:
-        spec["rho"], spec["tag"] = rand_rho(ctx, n)
+        # explicit arrays: mostly double; sometimes float32 / float16 / int64 with exactly representable entries
+        xd = str(rng.choice(["double", "float32", "float16", "int64"], p=[0.6, 0.25, 0.05, 0.1])) if xdtype is None else xdtype
+        spec["explicit_dtype"] = xd
+        ex = None if xd == "double" else xd
+        if kind == "psi":
+            spec["psi"] = rand_psi(ctx, n, ex)
+        else:
+            spec["rho"], spec["tag"] = rand_rho(ctx, n, ex)
     return spec
 
 
@@ -622,6 +950,10 @@ def run(ctx):
     ctx.torch_seed()
     check_default_dict(ctx)
     check_size_guard(ctx)
+    fixed_histories(ctx)
+    fixed_name_and_dtype_cases(ctx)
+    for c in range(40 if ctx.thorough else 10):
+        random_history(ctx)
     nmax = 4 if ctx.thorough else 3
     draws = 3 if ctx.thorough else 1
     # ---- all 3^n strings
@@ -676,6 +1008,8 @@ def search(ctx, broken, budget_s):
     t0 = time.time()
     n0 = len(ctx.failures)
     check_default_dict(ctx)
+    fixed_histories(ctx)
+    fixed_name_and_dtype_cases(ctx)
     if len(ctx.failures) > n0:
         return ctx.failures[n0]
     for rep in range(50):
@@ -695,6 +1029,10 @@ def search(ctx, broken, budget_s):
 
 def shrink(ctx, first):
     """Prefer the failing case with the fewest sites (cases are independent)."""
+    for f in ctx.failures:          # a broken dictionary explains everything downstream: report it first
+        c = f.get("case", {})
+        if isinstance(c, dict) and c.get("call") == "create_dict":
+            return f
     best = first
     for f in ctx.failures:
         c = f.get("case", {})
@@ -707,7 +1045,9 @@ def replay(ctx, rec):
     f = rec.get("failing") or {}
     case = f.get("case", {})
     print("replay:", f.get("what"), {k: case.get(k) for k in ("kind", "n", "basis", "call")})
-    if "kind" in case:
+    if case.get("kind") == "history":
+        check_history(ctx, {k: v for k, v in case.items() if k != "failed_at"})
+    elif "kind" in case:
         spec = {k: v for k, v in case.items() if k not in ("call", "z_overridden")}
         check_spec(ctx, spec)
     elif case.get("call") == "create_dict":
